@@ -16,6 +16,7 @@ import (
 
 var keys = []string{"command", "commands", "plugins", "wait", "waiter", "block", "input", "manual", "trigger", "group"}
 var values = map[string]string{"command": "c", "commands": "[a, b]", "plugins": "[p#v1]", "wait": "~", "waiter": "~", "block": "b", "input": "i", "manual": "m", "trigger": "t", "group": "g"}
+
 // type values: the documented ones, near misses, and every kind-deciding KEY name used as a type (a key name is not a type)
 var types = []string{"", "command", "script", "wait", "waiter", "block", "input", "manual", "trigger", "group", "mystery", "Command", "7", "commands", "plugins", "steps", " wait", "waits"}
 
@@ -131,6 +132,54 @@ func TestC15(t *testing.T) {
 					} else if ty == "" && !errors.Is(err, pipeline.ErrStepTypeInference) {
 						fail("no inferable key: warning does not wrap ErrStepTypeInference: %v", err)
 					}
+				}
+			}
+		}
+	}
+	// ill-typed additional keys: the step of the decided kind may fail to decode, in which case the
+	// entry becomes an unknown step with a warning - never a step of another family whose key is also present
+	for mask := 1; mask < 1<<len(keys); mask++ {
+		for _, ty := range []string{"", "command", "wait", "block", "trigger", "group"} {
+			for bi, bad := range []string{"env: {A: {B: c}}", "plugins: 42", "matrix: {setup: 7}", "env: [1, 2]"} {
+				has := map[string]bool{}
+				var sb strings.Builder
+				sb.WriteString("steps:\n  - zzz_first: x\n")
+				for i, k := range keys {
+					if mask&(1<<i) != 0 {
+						if k == "plugins" && bi == 1 {
+							continue // replaced by the ill-typed plugins value below
+						}
+						has[k] = true
+						fmt.Fprintf(&sb, "    %s: %s\n", k, values[k])
+					}
+				}
+				if bi == 1 {
+					has["plugins"] = true
+				}
+				sb.WriteString("    " + bad + "\n")
+				if ty != "" {
+					fmt.Fprintf(&sb, "    type: %q\n", ty)
+				}
+				p, err := pipeline.Parse(strings.NewReader(sb.String()))
+				cases++
+				if err != nil && !warning.Is(err) {
+					fail("Parse failed: %v\n%s", err, sb.String())
+					continue
+				}
+				if len(p.Steps) != 1 {
+					fail("%d steps\n%s", len(p.Steps), sb.String())
+					continue
+				}
+				want := byKeys(has)
+				if ty != "" {
+					want = byType(ty)
+				}
+				got := fmt.Sprintf("%T", p.Steps[0])
+				if got != want && got != "*pipeline.UnknownStep" {
+					fail("got %s, the rule table says %s (or an unknown step with a warning)\n%s", got, want, sb.String())
+				}
+				if got == "*pipeline.UnknownStep" && err == nil {
+					fail("unknown step without a warning\n%s", sb.String())
 				}
 			}
 		}
